@@ -126,11 +126,13 @@ Lemma term_tail t r npad before : script_ok r npad = true ->
 Proof.
   intros OK HE. pose proof (tailS_head r npad before OK) as HD. destruct t.
   - unfold not_unlatch_single. destruct (tailS before r npad) as [|x [|y l]]; auto. lia.
-  - unfold ends_symbol in HE. apply andb_true_iff in HE. destruct HE as [NP HR]. apply Nat.eqb_eq in NP. subst npad.
+  - unfold ends_symbol in HE. apply andb_true_iff in HE. destruct HE as [RL HR]. apply Nat.leb_le in RL. unfold rest_len in RL.
     destruct r as [|[items| | | | |] [|s2 r2]]; try discriminate.
-    + unfold tailS. cbn. exact I.
+    + unfold tailS. cbn [render app length]. destruct npad as [|[|k]]; cbn [pad rpad] in *; [exact I|cbn; lia|cbn [length] in RL; lia].
     + destruct items as [|i [|i2 it]]; try discriminate. apply andb_true_iff in HR. destruct HR as [Oi Si].
       destruct (single_item_tail i Oi Si) as (x & E & NX).
+      cbn [render segment_cw flat_map] in RL. cbv zeta in RL. rewrite !app_nil_r, E in RL. cbn [length] in RL.
+      assert (npad = 0)%nat as -> by lia.
       unfold tailS. cbn [render segment_cw flat_map app pad length]. rewrite E. cbn. exact NX.
     + exfalso. destruct items as [|i [|i2 it]]; discriminate.
 Qed.
@@ -209,8 +211,9 @@ Proof.
           exfalso. cbn [flat_map] in PL. rewrite app_length in PL.
           cbn [bytes_ok forallb] in OB. apply andb_true_iff in OB. destruct OB as [OC _]. apply N.ltb_lt in OC.
           destruct (c40_char text ch [] OC) as [_ RV]. destruct (c40_vals text ch); [cbn in RV; discriminate|cbn [length] in PL; lia]. }
-        destruct t; [discriminate|]. unfold ends_symbol in OT. apply andb_true_iff in OT. destruct OT as [NP HR].
-        apply Nat.eqb_eq in NP. subst npad.
+        destruct t; [discriminate|]. unfold ends_symbol in OT. apply andb_true_iff in OT. destruct OT as [RL HR].
+        assert (npad = 0)%nat as ->.
+        { assert (length tl = 0)%nat as L0 by (rewrite ET; reflexivity). unfold tl in L0. rewrite tailS_length in L0. unfold rest_len in L0. lia. }
         destruct r as [|s2 r2].
         - destruct text; cbn; now rewrite !app_nil_r.
         - exfalso. destruct s2 as [items| | | | |]; try discriminate. destruct items as [|i [|i2 it]]; try discriminate.
@@ -244,8 +247,9 @@ Proof.
         assert (chars = []) as ->.
         { pose proof (pack_len3 (map x12_v chars)) as PL. rewrite map_length in PL. specialize (PL M). rewrite EP in PL.
           cbn [length] in PL. destruct chars; [reflexivity|cbn [length] in PL; lia]. }
-        destruct t; [discriminate|]. unfold ends_symbol in OT. apply andb_true_iff in OT. destruct OT as [NP HR].
-        apply Nat.eqb_eq in NP. subst npad.
+        destruct t; [discriminate|]. unfold ends_symbol in OT. apply andb_true_iff in OT. destruct OT as [RL HR].
+        assert (npad = 0)%nat as ->.
+        { assert (length tl = 0)%nat as L0 by (rewrite ET; reflexivity). unfold tl in L0. rewrite tailS_length in L0. unfold rest_len in L0. lia. }
         destruct r as [|s2 r2].
         - cbn. now rewrite !app_nil_r.
         - exfalso. destruct s2 as [items| | | | |]; try discriminate. destruct items as [|i [|i2 it]]; try discriminate.
@@ -271,19 +275,16 @@ Proof.
       assert (edi_tail_ok t (length chars) tl) as HT.
       { unfold edi_tail_ok, tl. rewrite tailS_length. destruct t.
         - apply Nat.leb_le in OT. exact OT.
-        - unfold ends_symbol2 in OT. apply andb_true_iff in OT. destruct OT as [NP HR]. apply Nat.eqb_eq in NP. subst npad.
-          unfold rest_len. rewrite Nat.add_0_r. destruct r as [|[items| | | | |] [|s2 r2]]; try discriminate.
-          * cbn. lia.
-          * apply andb_true_iff in HR. destruct HR as [_ HL]. apply Nat.leb_le in HL.
-            cbn [render segment_cw]. cbv zeta. rewrite app_nil_r. exact HL. }
+        - unfold ends_symbol2 in OT. apply andb_true_iff in OT. destruct OT as [RL _]. apply Nat.leb_le in RL. exact RL. }
       assert (decode_ascii n (mkrd (240 :: body ++ tl) before) false out [] =
               Ok (mkrd (body ++ tl) (before + 1), Edifact, out, [])) as ->.
       { destruct n as [|n]; [lia|]. reflexivity. }
       cbn [bind cont]. destruct f as [|f]; [lia|].
       assert (body ++ tl = [] \/ body ++ tl <> []) as [EB|NEB] by (destruct (body ++ tl); [left; reflexivity|right; discriminate]).
       { rewrite EB. apply app_eq_nil in EB. destruct EB as [EP ET]. unfold body in EP. apply pack_edi_nil in EP.
-        destruct EP as [-> ->]. unfold ends_symbol2 in OT. apply andb_true_iff in OT. destruct OT as [NP HR].
-        apply Nat.eqb_eq in NP. subst npad.
+        destruct EP as [-> ->]. unfold ends_symbol2 in OT. apply andb_true_iff in OT. destruct OT as [RL HR].
+        assert (npad = 0)%nat as ->.
+        { assert (length tl = 0)%nat as L0' by (rewrite ET; reflexivity). unfold tl in L0'. rewrite tailS_length in L0'. unfold rest_len in L0'. lia. }
         destruct r as [|s2 r2].
         - cbn. now rewrite !app_nil_r.
         - assert (length tl = 0)%nat as L0 by (rewrite ET; reflexivity). unfold tl in L0. rewrite tailS_length in L0.
